@@ -53,6 +53,7 @@ type tunDev struct {
 	fd     int
 	mu     sync.Mutex
 	frames [][]byte
+	stamps []int64
 	stop   chan struct{}
 	done   chan struct{}
 }
@@ -90,8 +91,10 @@ func newTun(name string, addr string) (*tunDev, error) {
 			}
 			f := make([]byte, k)
 			copy(f, buf[:k])
+			now := time.Now().UnixNano()
 			t.mu.Lock()
 			t.frames = append(t.frames, f)
+			t.stamps = append(t.stamps, now)
 			t.mu.Unlock()
 		}
 	}()
@@ -108,8 +111,17 @@ func (t *tunDev) take() [][]byte {
 	t.mu.Lock()
 	defer t.mu.Unlock()
 	f := t.frames
-	t.frames = nil
+	t.frames, t.stamps = nil, nil
 	return f
+}
+
+// takeStamped: the frames with the (user-level, up to a millisecond late) time each was read off the device
+func (t *tunDev) takeStamped() ([][]byte, []int64) {
+	t.mu.Lock()
+	defer t.mu.Unlock()
+	f, s := t.frames, t.stamps
+	t.frames, t.stamps = nil, nil
+	return f, s
 }
 
 func (t *tunDev) count() int {
